@@ -271,4 +271,250 @@ theorem gp_stepI_blocks {α : Type} (Post : Nat → Nat → Nat → R α) (K : N
   cases gp_blocks (fun j x => do let a ← Post j (j * n) (j * n + n); K j a x) n size 0 r with
   | error e => rfl
   | ok x => rfl
+theorem gp_loop_length (g : Nat → List Nat → R Nat) : ∀ cnt i r o, gp_loop g cnt i r = .ok o → o.length = r.length := by
+  intro cnt
+  induction cnt with
+  | zero => intro i r o h; rw [gp_loop] at h; cases h; rfl
+  | succ n ih =>
+    intro i r o h
+    rw [gp_loop] at h
+    cases hg : g i r with
+    | error e => simp only [hg, bind, Except.bind] at h; cases h
+    | ok v =>
+      simp only [hg, bind, Except.bind] at h
+      unfold GenW.setIdx at h
+      by_cases hi : i < r.length
+      · rw [if_pos hi] at h
+        have := ih (i + 1) _ o h
+        rw [this, List.length_set]
+      · rw [if_neg hi] at h; cases h
+
+theorem gp_idxT_getD {α : Type} [Inhabited α] (l : List α) (i : Nat) (h : i < l.length) : GenP.idxT l i = .ok (l.getD i default) := by
+  unfold GenP.idxT; simp [List.getD, h]
+
+theorem gp_zipM'_size (A B : Array Nat) (f : Nat → Nat → R Nat) (o : Array Nat) (h : zipM' A B f = .ok o) : o.size = A.size := by
+  rw [gp_zipM'_eq] at h
+  cases hm : (List.range A.size).mapM (fun i => f (A.getD i 0) (B.getD i 0)) with
+  | error e => simp only [hm, bind, Except.bind] at h; cases h
+  | ok vs =>
+    simp only [hm, bind, Except.bind, pure, Except.pure] at h
+    cases h
+    simp [gp_mapM_lengthG _ _ _ hm]
+
+theorem gp_mapM'_size (A : Array Nat) (f : Nat → R Nat) (o : Array Nat) (h : mapM' A f = .ok o) : o.size = A.size := by
+  rw [gp_mapM'_eq] at h
+  cases hm : A.toList.mapM f with
+  | error e => simp only [hm, bind, Except.bind] at h; cases h
+  | ok vs =>
+    simp only [hm, bind, Except.bind, pure, Except.pure] at h
+    cases h
+    simp [gp_mapM_lengthG _ _ _ hm]
+
+theorem gp_blk_bound {j size n : Nat} (hj : j < size) : j * n + n ≤ size * n := by
+  have h1 : (j + 1) * n ≤ size * n := Nat.mul_le_mul_right _ hj
+  rw [Nat.succ_mul] at h1; exact h1
+
+theorem gp_compsZip_eq (l : Level) (a b : RnsPoly) (f : Nat → Nat → Modulus → R Nat) : rnsZip l a b f = compsZip l.qs a b f := rfl
+theorem gp_rnsNeg_eq (l : Level) (a : RnsPoly) : rnsNeg l a = compsMap l.qs a negateMod := rfl
+
+/-! ### in-place binary wrappers (`add_inplace_p`, `sub_inplace_p`, `dyadic_product_inplace_p`) -/
+
+/-- the other arguments of an in-place binary wrapper iteration: block of the second operand, `&moduli[i]` -/
+def gp_binPost (b : List Nat) (mods : List Modulus) (i off up : Nat) : R (List Nat × Modulus) := do
+  let t3 ← GenP.slice b off up
+  let t4 ← GenP.idxT mods i
+  pure (t3, t4)
+
+theorem gp_binI_model (Kf : List Nat → List Nat → Modulus → R (List Nat)) (f : Nat → Nat → Modulus → R Nat)
+    (hK : ∀ x y m, x.length ≤ y.length → Kf x y m = Except.map Array.toList (zipM' x.toArray (y.take x.length).toArray (fun u v => f u v m)))
+    (hKlen : ∀ x y m o, Kf x y m = .ok o → o.length = x.length)
+    (l : Level) (a b : List Nat) (ha : a.length = l.size * l.n) (hb : l.size * l.n ≤ b.length) (hB : a.length < B64) :
+    gp_bloop (gp_stepI (gp_binPost b l.qs.toList) (fun _ p x => Kf x p.1 p.2)) l.n l.size 0 a 0 =
+      Except.map (flattenRns l.size l.n) (compsZip l.qs (unflattenRns l.size l.n a) (unflattenRns l.size l.n b) f) := by
+  rw [gp_stepI_blocks _ _ l.n (fun _ p x o h => hKlen x p.1 p.2 o h) l.size a (by omega) hB]
+  unfold compsZip
+  apply gp_blocks_model _ (fun j => zipM' ((unflattenRns l.size l.n a).getD j #[]) ((unflattenRns l.size l.n b).getD j #[])
+    (fun x y => f x y (l.qs.getD j default))) l.n l.size a ha
+  · intro j hj
+    have hja : j * l.n + l.n ≤ a.length := by rw [ha]; exact gp_blk_bound hj
+    have hjb : j * l.n + l.n ≤ b.length := by omega
+    simp only [gp_binPost, gp_slice_blk b j l.n hjb, gp_idxT_getD l.qs.toList j (by simpa [Level.size] using hj), bind, Except.bind,
+      pure, Except.pure]
+    rw [hK _ _ _ (by rw [gp_blk_length _ _ _ hja, gp_blk_length _ _ _ hjb]), gp_unflatten_blk _ _ _ _ hj hja,
+      gp_unflatten_blk _ _ _ _ hj hjb, gp_blk_length _ _ _ hja, gz_toList_getD,
+      List.take_of_length_le (by rw [gp_blk_length _ _ _ hjb])]
+  · intro j o hj h
+    have hja : j * l.n + l.n ≤ a.length := by rw [ha]; exact gp_blk_bound hj
+    rw [gp_zipM'_size _ _ _ _ h, gp_unflatten_blk _ _ _ _ hj hja]
+    simp only [List.size_toArray]
+    exact gp_blk_length _ _ _ hja
+
+/-! ### in-place unary wrappers (`negate_inplace_p`, `multiply_scalar_inplace_p`) -/
+
+theorem gp_unI_model (Ku : List Nat → Modulus → R (List Nat)) (F : Nat → Modulus → R Nat)
+    (hK : ∀ x m, Ku x m = Except.map Array.toList (mapM' x.toArray (fun u => F u m)))
+    (l : Level) (a : List Nat) (ha : a.length = l.size * l.n) (hB : a.length < B64) :
+    gp_bloop (gp_stepI (fun i _ _ => GenP.idxT l.qs.toList i) (fun _ m x => Ku x m)) l.n l.size 0 a 0 =
+      Except.map (flattenRns l.size l.n) (compsMap l.qs (unflattenRns l.size l.n a) F) := by
+  have hKlen : ∀ x m o, Ku x m = .ok o → o.length = x.length := by
+    intro x m o h
+    rw [hK] at h
+    cases hm : mapM' x.toArray (fun u => F u m) with
+    | error e => rw [hm] at h; cases h
+    | ok v =>
+      rw [hm] at h; cases h
+      have := gp_mapM'_size _ _ _ hm
+      simpa using this
+  rw [gp_stepI_blocks _ _ l.n (fun _ m x o h => hKlen x m o h) l.size a (by omega) hB]
+  unfold compsMap
+  apply gp_blocks_model _ (fun j => mapM' ((unflattenRns l.size l.n a).getD j #[]) (fun x => F x (l.qs.getD j default))) l.n l.size a ha
+  · intro j hj
+    have hja : j * l.n + l.n ≤ a.length := by rw [ha]; exact gp_blk_bound hj
+    simp only [gp_idxT_getD l.qs.toList j (by simpa [Level.size] using hj), bind, Except.bind]
+    rw [hK, gp_unflatten_blk _ _ _ _ hj hja, gz_toList_getD]
+  · intro j o hj h
+    have hja : j * l.n + l.n ≤ a.length := by rw [ha]; exact gp_blk_bound hj
+    rw [gp_mapM'_size _ _ _ h, gp_unflatten_blk _ _ _ _ hj hja]
+    simp only [List.size_toArray]
+    exact gp_blk_length _ _ _ hja
+
+/-! ### the library's in-place `_p` wrappers = the model's component folds -/
+
+theorem gp_add_inplace_len (x y : List Nat) (m : Modulus) (o : List Nat) (h : GenP.poly_add_inplace x y m = .ok o) : o.length = x.length := by
+  unfold GenP.poly_add_inplace at h
+  simp only [] at h
+  split at h
+  · exact gp_loop_length _ _ _ _ _ (by rw [← gp_add_inplace_loop_eq]; exact h)
+  · cases h
+
+theorem gp_add_inplace_p_loop_eq (b : List Nat) (n : Nat) (mods : List Modulus) : ∀ cnt i r off,
+    GenP.poly_add_inplace_p_loop1 b n mods cnt i r off =
+      gp_bloop (gp_stepI (gp_binPost b mods) (fun _ p x => GenP.poly_add_inplace x p.1 p.2)) n cnt i r off := by
+  intro cnt
+  induction cnt with
+  | zero => intro i r off; rfl
+  | succ c ih =>
+    intro i r off
+    rw [GenP.poly_add_inplace_p_loop1, gp_bloop]
+    simp only [gp_stepI, gp_binPost, bind_assoc, pure_bind, ih]
+
+/-- `add_inplace_p(poly1, poly2, degree, moduli)` on the flat layout = the hand model's `rnsAdd` -/
+theorem gp_poly_add_inplace_p_model (l : Level) (a b : List Nat) (ha : a.length = l.size * l.n) (hb : l.size * l.n ≤ b.length)
+    (hB : a.length < B64) :
+    GenP.poly_add_inplace_p a b l.n l.qs.toList =
+      Except.map (flattenRns l.size l.n) (rnsAdd l (unflattenRns l.size l.n a) (unflattenRns l.size l.n b)) := by
+  unfold GenP.poly_add_inplace_p rnsAdd
+  simp only []
+  rw [gp_add_inplace_p_loop_eq, gp_compsZip_eq, show l.qs.toList.length = l.size by simp [Level.size]]
+  exact gp_binI_model _ addMod
+    (fun x y m h => by rw [gp_poly_add_inplace_eq, if_pos h]) gp_add_inplace_len l a b ha hb hB
+
+theorem gp_sub_inplace_len (x y : List Nat) (m : Modulus) (o : List Nat) (h : GenP.poly_sub_inplace x y m = .ok o) : o.length = x.length := by
+  unfold GenP.poly_sub_inplace at h
+  simp only [] at h
+  split at h
+  · exact gp_loop_length _ _ _ _ _ (by rw [← gp_sub_inplace_loop_eq]; exact h)
+  · cases h
+
+theorem gp_sub_inplace_p_loop_eq (b : List Nat) (n : Nat) (mods : List Modulus) : ∀ cnt i r off,
+    GenP.poly_sub_inplace_p_loop1 b n mods cnt i r off =
+      gp_bloop (gp_stepI (gp_binPost b mods) (fun _ p x => GenP.poly_sub_inplace x p.1 p.2)) n cnt i r off := by
+  intro cnt
+  induction cnt with
+  | zero => intro i r off; rfl
+  | succ c ih =>
+    intro i r off
+    rw [GenP.poly_sub_inplace_p_loop1, gp_bloop]
+    simp only [gp_stepI, gp_binPost, bind_assoc, pure_bind, ih]
+
+/-- `sub_inplace_p` = the hand model's `rnsSub` -/
+theorem gp_poly_sub_inplace_p_model (l : Level) (a b : List Nat) (ha : a.length = l.size * l.n) (hb : l.size * l.n ≤ b.length)
+    (hB : a.length < B64) :
+    GenP.poly_sub_inplace_p a b l.n l.qs.toList =
+      Except.map (flattenRns l.size l.n) (rnsSub l (unflattenRns l.size l.n a) (unflattenRns l.size l.n b)) := by
+  unfold GenP.poly_sub_inplace_p rnsSub
+  simp only []
+  rw [gp_sub_inplace_p_loop_eq, gp_compsZip_eq, show l.qs.toList.length = l.size by simp [Level.size]]
+  exact gp_binI_model _ subMod
+    (fun x y m h => by rw [gp_poly_sub_inplace_eq, if_pos h]) gp_sub_inplace_len l a b ha hb hB
+
+theorem gp_dyadic_inplace_len (x y : List Nat) (m : Modulus) (o : List Nat) (h : GenP.poly_dyadic_product_inplace x y m = .ok o) :
+    o.length = x.length := by
+  unfold GenP.poly_dyadic_product_inplace at h
+  simp only [] at h
+  exact gp_loop_length _ _ _ _ _ (by rw [← gp_dyadic_inplace_loop_eq]; exact h)
+
+theorem gp_dyadic_inplace_p_loop_eq (b : List Nat) (n : Nat) (mods : List Modulus) : ∀ cnt i r off,
+    GenP.poly_dyadic_product_inplace_p_loop1 b n mods cnt i r off =
+      gp_bloop (gp_stepI (gp_binPost b mods) (fun _ p x => GenP.poly_dyadic_product_inplace x p.1 p.2)) n cnt i r off := by
+  intro cnt
+  induction cnt with
+  | zero => intro i r off; rfl
+  | succ c ih =>
+    intro i r off
+    rw [GenP.poly_dyadic_product_inplace_p_loop1, gp_bloop]
+    simp only [gp_stepI, gp_binPost, bind_assoc, pure_bind, ih]
+
+/-- `dyadic_product_inplace_p` = the hand model's `rnsDyadic` -/
+theorem gp_poly_dyadic_product_inplace_p_model (l : Level) (a b : List Nat) (ha : a.length = l.size * l.n) (hb : l.size * l.n ≤ b.length)
+    (hB : a.length < B64) :
+    GenP.poly_dyadic_product_inplace_p a b l.n l.qs.toList =
+      Except.map (flattenRns l.size l.n) (rnsDyadic l (unflattenRns l.size l.n a) (unflattenRns l.size l.n b)) := by
+  unfold GenP.poly_dyadic_product_inplace_p rnsDyadic
+  simp only []
+  rw [gp_dyadic_inplace_p_loop_eq, gp_compsZip_eq, show l.qs.toList.length = l.size by simp [Level.size]]
+  exact gp_binI_model _ mulMod
+    (fun x y m h => by rw [gp_poly_dyadic_product_inplace_eq _ _ _ h]; rfl) gp_dyadic_inplace_len l a b ha hb hB
+
+theorem gp_multiply_scalar_inplace_p_loop_eq (s n : Nat) (mods : List Modulus) : ∀ cnt i r off,
+    GenP.poly_multiply_scalar_inplace_p_loop1 s n mods cnt i r off =
+      gp_bloop (gp_stepI (fun i _ _ => GenP.idxT mods i) (fun _ m x => GenP.poly_multiply_scalar_inplace x s m)) n cnt i r off := by
+  intro cnt
+  induction cnt with
+  | zero => intro i r off; rfl
+  | succ c ih =>
+    intro i r off
+    rw [GenP.poly_multiply_scalar_inplace_p_loop1, gp_bloop]
+    simp only [gp_stepI, bind_assoc, pure_bind, ih]
+
+/-- `multiply_scalar_inplace_p` = the model's component map with `mulMod · scalar` (`rnsScale`, the `scale` step of `ctTranslateBalanced`) -/
+theorem gp_poly_multiply_scalar_inplace_p_model (l : Level) (a : List Nat) (s : Nat) (ha : a.length = l.size * l.n) (hB : a.length < B64) :
+    GenP.poly_multiply_scalar_inplace_p a s l.n l.qs.toList =
+      Except.map (flattenRns l.size l.n) (compsMap l.qs (unflattenRns l.size l.n a) (fun x m => mulMod x s m)) := by
+  unfold GenP.poly_multiply_scalar_inplace_p
+  simp only []
+  rw [gp_multiply_scalar_inplace_p_loop_eq, show l.qs.toList.length = l.size by simp [Level.size]]
+  exact gp_unI_model _ (fun x m => mulMod x s m) (fun x m => gp_poly_multiply_scalar_inplace_eq x s m) l a ha hB
+
+theorem gp_negate_inplace_p_loop_eq (n : Nat) (mods : List Modulus) : ∀ cnt i r off,
+    GenP.poly_negate_inplace_p_loop1 n mods cnt i r off =
+      gp_bloop (gp_stepI (fun i _ _ => GenP.idxT mods i) (fun _ m x => GenP.poly_negate_inplace x m)) n cnt i r off := by
+  intro cnt
+  induction cnt with
+  | zero => intro i r off; rfl
+  | succ c ih =>
+    intro i r off
+    rw [GenP.poly_negate_inplace_p_loop1, gp_bloop]
+    cases hck : ckAdd off n with
+    | error e => rfl
+    | ok up =>
+      simp only [gp_stepI, ih, bind, Except.bind]
+      cases GenP.slice r off up with
+      | error e => rfl
+      | ok v =>
+        cases GenP.idxT mods i with
+        | error e => rfl
+        | ok m =>
+          simp only []
+          cases GenP.poly_negate_inplace v m with
+          | error e => rfl
+          | ok o => rfl
+
+/-- `negate_inplace_p` = the hand model's `rnsNeg` -/
+theorem gp_poly_negate_inplace_p_model (l : Level) (a : List Nat) (ha : a.length = l.size * l.n) (hB : a.length < B64) :
+    GenP.poly_negate_inplace_p a l.n l.qs.toList = Except.map (flattenRns l.size l.n) (rnsNeg l (unflattenRns l.size l.n a)) := by
+  unfold GenP.poly_negate_inplace_p
+  simp only []
+  rw [gp_negate_inplace_p_loop_eq, gp_rnsNeg_eq, show l.qs.toList.length = l.size by simp [Level.size]]
+  exact gp_unI_model _ negateMod (fun x m => gp_poly_negate_inplace_eq x m) l a ha hB
 end HC
